@@ -28,7 +28,7 @@ RULE = ("scenario = generated config file (1..4 servers; args with spaces/quotes
         "spawns was exercised with a non-default argument/env shape or a fault")
 PROBES = ["run_command_multi_server", "one_server_unstartable", "env_configured", "args_with_spaces_or_unicode", "malformed_config",
           "junk_before_answer", "timeout_numeric_string"]
-TIERS = {"quick": {"runs": 1500, "wall": 45.0}, "thorough": {"runs": 60000, "wall": 540.0}}
+TIERS = {"quick": {"runs": 8000, "wall": 45.0}, "thorough": {"runs": 300000, "wall": 560.0}}
 ASSUMPTIONS = [
     "the witness is the spawn seam (anyio.open_process): argv/env are what the library passes to it, not what a kernel would exec",
     "an empty configured env ({}) is treated as absent (the sentence does not separate them); with no env configured only 'a dict is passed' is checked",
@@ -377,6 +377,8 @@ def execute(scn: dict) -> dict:
     for s in scn["servers"]:
         if s.get("fault"):
             out["faults"]["child:" + s["fault"]] = out["faults"].get("child:" + s["fault"], 0) + 1
-    out["isig"] = out["isig"] + f":{entry}:{mal}:{len(names)}"
+    shape = [(len(by_name[n_].get("args", [])) if "args" in by_name[n_] else -1, "env" in by_name[n_] and bool(by_name[n_]["env"]),
+              type(by_name[n_].get("timeout")).__name__, by_name[n_].get("fault")) for n_ in names if n_ in by_name]
+    out["isig"] = out["isig"] + f":{entry}:{mal}:{scn['cmd_name']}:{shape!r}"
     out["history"] = hist
     return out
